@@ -353,7 +353,7 @@ class Model:
             if t.kind == "}":
                 if level == 0:
                     raise Reject(t, "unexpected closing brace")
-                return
+                return t
             if t.kind != "STR":
                 raise Reject(t, "unexpected token %s" % t.kind)
             name = t.val
@@ -388,8 +388,8 @@ class Model:
                 if b.kind != "{":
                     raise Reject(b, "missing opening brace")
                 inst = self.open_section(sec, o, title, b)
-                self.body(inst, level + 1, path + ((o.d["n"], o.vals.index(inst)),))
-                self.validate(o, b)
+                closing = self.body(inst, level + 1, path + ((o.d["n"], o.vals.index(inst)),))
+                self.validate(o, closing or b)      # the section's validation callback runs at its closing brace
             elif k == "func":
                 self.call(sec, o)
             else:
